@@ -15,10 +15,18 @@ import (
 	"encoding/json"
 	"fmt"
 	"os"
+	"runtime"
 
 	"verif/harness/cmd/c08/bk"
 	"verif/harness/kit"
 )
+
+// unexpected counts oracle failures other than the known in-flight finding; once
+// a few have been recorded the verdict is settled and the run stops early (a
+// broken broker makes every remaining scenario wait for its 10 s bounds).
+var unexpected int
+
+const knownInflight = "C08:broker:unsubscribe-before-dispatch"
 
 func record(run *kit.Run, sc bk.Scenario, res *bk.Result) {
 	bk.Synthesize(sc, res)
@@ -46,6 +54,9 @@ func record(run *kit.Run, sc bk.Scenario, res *bk.Result) {
 			continue
 		}
 		seen[f.Sig] = true
+		if f.Sig != knownInflight {
+			unexpected++
+		}
 		run.OracleFail(sc.ID, f.Sig, f.Detail, sc, res.Obs)
 	}
 }
@@ -83,8 +94,13 @@ func main() {
 		record(run, sc, &res)
 	}
 
-	rounds := run.Pick(260, 6000)
-	for i := 0; i < rounds; i++ {
+	rounds := run.Pick(1500, 30000)
+	procs := []int{runtime.NumCPU(), 1, 2, 4}
+	for i := 0; i < rounds && unexpected < 3; i++ {
+		if i%25 == 0 {
+			// scheduling perturbation only
+			runtime.GOMAXPROCS(procs[(i/25)%len(procs)])
+		}
 		r := run.Rand.Fork()
 		c := bk.GenCfg(r, bk.Backends)
 		var sc bk.Scenario
